@@ -60,6 +60,7 @@ type expectation struct {
 	skip      string // non-empty: the statement is silent on this input (reason)
 	branch    string // case | default | none | timeout | random | no-router
 	catUUID   string // selected category (by UUID)
+	catIndex  int    // >= 0: the selected category is THIS element of the category list (random router)
 	value     string
 	input     string
 	hasValue  bool // value/input are prescribed by the statement
@@ -70,7 +71,7 @@ type expectation struct {
 
 // what the statement prescribes for the node under test
 func (sc *Scenario) expect(t *tables) expectation {
-	e := expectation{winner: -1}
+	e := expectation{winner: -1, catIndex: -1}
 	switch {
 	case sc.Kind == "none":
 		e.branch = "no-router"
@@ -93,6 +94,7 @@ func (sc *Scenario) expect(t *tables) expectation {
 			return e
 		}
 		e.catUUID = sc.Cats[idx.Int64()].UUID
+		e.catIndex = int(idx.Int64())
 		e.input, e.value, e.hasValue = d.String(), "", false
 	default:
 		e.branch = "switch"
@@ -256,6 +258,10 @@ func (sc *Scenario) directOracle(e expectation, obs *Obs, res *hx.Result, input 
 	}
 
 	cands := sc.catsWithUUID(e.catUUID)
+	if e.catIndex >= 0 {
+		// "category floor(r*n)": that element of the list, whatever other categories share its UUID
+		cands = []CatDef{sc.Cats[e.catIndex]}
+	}
 	if o.Outcome != 3 {
 		fail("failed", fmt.Sprintf("category %s selected but the run did not leave the node: outcome=%d run=%s", e.catUUID, o.Outcome, o.RunStatus))
 		return
